@@ -305,6 +305,35 @@ def run(rd, emit, log, enum_values, ti_default):
             if len(a) < 3 or not re.match(r'^frame\s*\.\s*Sandboxed$', a[2]):
                 ok = False
     B('f_sb_getfield_sandboxed', ok and n >= 5, 'all %d GetField call sites of the interpreter pass frame.Sandboxed' % n)
+    # read paths: every accessor in the interpreter that fetches a field WITHOUT Object::GetFieldByName's FANoUserView test
+    # (GetOwnField, GetField(fid), NavigateField, GetFieldByName(.., false, ..)), with the function it occurs in
+    raw = []
+
+    def functions_of(src):
+        out = []
+        for m in re.finditer(r'(?:^|\n)[ \t]*(?:static\s+)?(?:inline\s+)?[\w:<>\*&]+(?:\s+[\w:<>\*&]+)*?\s+\*?&?((?:\w+::)?\w+)\s*\(([^;{}()]|\([^()]*\))*\)\s*(?:const\s*)?(?:override\s*)?\{', src):
+            if m.group(1) in ('if', 'for', 'while', 'switch', 'catch', 'return'):
+                continue
+            b = m.end() - 1
+            out.append((m.group(1), src[b:balanced(src, b, '{', '}')]))
+        return out
+    for src in (cpp, vmops):
+        for fname, fb in functions_of(src):
+            for acc in re.finditer(r'(?:->|\.)\s*(GetOwnField|NavigateField|GetField)\s*\(', fb):
+                if acc.group(1) == 'GetField' and not re.match(r'\s*\w+\s*\)', fb[acc.end():]):
+                    continue        # VMOps-style GetField(ctx, name, ...) is not the by-id accessor
+                raw.append((fname, acc.group(1)))
+            for acc in re.finditer(r'GetFieldByName\s*\(([^;]*?)\)\s*;', fb):
+                a = split_args(acc.group(1))
+                if len(a) >= 2 and a[1] not in ('sandboxed', 'frame.Sandboxed', 'true'):
+                    raw.append((fname, 'GetFieldByName(unsandboxed)'))
+    body += '(* accessors in expression.cpp / vmops.hpp that fetch a field without the no_user_view test: (function, accessor) *)\n'
+    body += 'Definition f_sb_raw_reads : list (string * string) := %s.\n\n' % blist(
+        ['(%s, %s)' % (coqs(a), coqs(b)) for a, b in sorted(set(raw))])
+    fvi = fn_body(vmops, r'static\s+inline\s+bool\s+FindVarImport\s*\(') or ''
+    B('f_sb_var_import_checked', bool(re.search(r'GetField\s*\(\s*parent\s*,\s*name\s*,\s*frame\s*\.\s*Sandboxed\s*,', fvi)) and
+      not re.search(r'GetOwnField|NavigateField', fvi),
+      'VMOps::FindVarImport (bare identifier resolved through a `using` import) reads through GetField(parent, name, frame.Sandboxed)')
     gf = fn_body(vmops, r'static\s+inline\s+Value\s+GetField\s*\(') or ''
     B('f_sb_vmops_getfield_forwards', bool(re.search(r'GetFieldByName\s*\(\s*field\s*,\s*sandboxed\s*,', gf)),
       'VMOps::GetField forwards its sandboxed flag to Object::GetFieldByName')
@@ -366,6 +395,29 @@ def run(rd, emit, log, enum_values, ti_default):
             ms = re.search(r'\b' + var + r'\s*\.\s*Sandboxed\s*=\s*(\w+)\s*;', nxt)
             k += 1
             frames.append(('%s:%d' % (tag, k), ms.group(1) if ms else 'unset'))
+    # per function on the way from the API to the evaluation of user code: the ScriptFrames it constructs, in source order,
+    # and what it assigns to their Sandboxed.  A frame constructed later is ABOVE on the thread's frame stack, and callee
+    # frames inherit Sandboxed from the stack top.
+    decls = []
+    for path, sigs in (('lib/remote/filterutility.cpp', [('FilteredAddTarget', r'static\s+void\s+FilteredAddTarget\s*\('),
+                                                         ('FilterUtility::EvaluateFilter', r'bool\s+FilterUtility::EvaluateFilter\s*\('),
+                                                         ('FilterUtility::GetFilterTargets', r'FilterUtility::GetFilterTargets\s*\(')]),
+                       ('lib/remote/eventqueue.cpp', [('EventQueue::ProcessEvent', r'void\s+EventQueue::ProcessEvent\s*\('),
+                                                      ('EventsFilter::Push', r'void\s+EventsFilter::Push\s*\(')]),
+                       ('lib/remote/consolehandler.cpp', [('ConsoleHandler::ExecuteScriptHelper', r'bool\s+ConsoleHandler::ExecuteScriptHelper\s*\(')])):
+        t = strip_comments(rd(path))
+        for fname, sig in sigs:
+            fb = fn_body(t, sig)
+            if fb is None:
+                decls.append((fname, '<function not found>', 'unset'))
+                continue
+            for m in re.finditer(r'ScriptFrame\s+(\w+)\s*[\({]([^;]*)[\)}]\s*;', fb):
+                var = m.group(1)
+                ms = re.findall(r'\b' + var + r'\s*\.\s*Sandboxed\s*=\s*(\w+)\s*;', fb[m.end():])
+                decls.append((fname, var, ms[-1] if ms else 'unset'))
+    body += '(* (function, frame variable, last value assigned to its Sandboxed) in source order *)\n'
+    body += 'Definition f_sb_frame_decls : list (string * (string * string)) := %s.\n\n' % blist(
+        ['(%s, (%s, %s))' % (coqs(a), coqs(b), coqs(c)) for a, b, c in decls])
     frame_sites('lib/remote/filterutility.cpp', 'filterutility')
     frame_sites('lib/remote/eventqueue.cpp', 'eventqueue')
     frame_sites('lib/remote/consolehandler.cpp', 'consolehandler')
